@@ -6,6 +6,9 @@ fn main() {
     if std::env::args().nth(1).as_deref() == Some("--c50-child") {
         c50::child_main();
     }
+    if std::env::args().nth(1).as_deref() == Some("--c49-debug") {
+        c49::debug_main(&std::env::args().skip(2).collect::<Vec<_>>());
+    }
     let checks: &[Check] = &[
         Check { id: "C48", level: Level::Exploration, run: c48::run },
         Check { id: "C49", level: Level::ModelChecking, run: c49::run },
